@@ -20,8 +20,8 @@ def run(chk):
     rng = random.Random(vf.seed())
     binary = vf.go_build("ledger")
     txs = ["T1", "T3", "T6", "T7"]
-    big = dict(txs=txs, blocks=4 if thorough else 3, tpb=2, bad=0, deliver=5 if thorough else 4)
-    L.exhaustive(chk, "trees<=%d blocks, <=2 of {T1,T3,T6,T7} per block" % big["blocks"], **big)
+    big = dict(txs=txs, blocks=4 if thorough else 3, tpb=1 if thorough else 2, bad=0, deliver=5 if thorough else 4)
+    L.exhaustive(chk, "trees<=%d blocks, <=%d of {T1,T3,T6,T7} per block" % (big["blocks"], big["tpb"]), **big)
     small = dict(txs=txs, blocks=3, tpb=1, bad=0, deliver=4 if thorough else 3)
     behs = L.extract_edges(chk, "3 blocks x <=1 tx", 8000 if thorough else 500, rng, **small)
     sim = L.simulate(chk, "6 blocks x <=2 txs", 3000 if thorough else 200, 14,
